@@ -18,7 +18,8 @@ vars == <<l, viol>>
 When(cond, name) == IF cond THEN {name} ELSE {}
 Falsified(e) ==
     IF e.ev # "Case" THEN {"Malformed"} ELSE
-         When(~C20_UpgradeKeeps(e),   "C20_UpgradeKeeps")
+         When(~C20_UpgradeKeeps(e) /\ ~KF_C20_1(e), "C20_UpgradeKeeps")
+    \cup When(~C20_UpgradeKeeps(e) /\ KF_C20_1(e),  "KF:C20-environment-is-registry-wide")
     \cup When(~C20_AcceptedByNode(e), "C20_AcceptedByNode")
     \cup When(~C20_InstallAsAsked(e), "Drift_InstallAsAsked")
     \cup When(~SpecArgsAgree(e),      "Drift_SpecArgs")
